@@ -28,7 +28,8 @@ to nesting depth 4 are explored (breadth first, states deduplicated), with two o
 semantics of the property: physical acquire exactly on the 0->1 transition (none for PackRepository's logical write
 lock), physical release exactly on 1->0, no event otherwise; lock_write while read-locked raises with fields and
 events unchanged; unlock when not held is refused with state unchanged; a failing acquire or token check leaves the
-fields unchanged. Supporting lints: (K4 field ownership) the tracked fields are assigned only in __init__, the three
+fields unchanged; PackRepository read-locks its fallback repositories exactly with the first lock and unlocks them
+exactly with the last unlock (never on a refused call). Supporting lints: (K4 field ownership) the tracked fields are assigned only in __init__, the three
 lock methods and break_lock; (K4 call ownership) lock_read/lock_write/unlock of the physical lock object are called
 only from those methods; (count lint) the counters are compared only with the constants 0 and 1, which makes depth 4
 representative of all depths. Calls on other objects are neutral (listed in evidence); branching on their results is
@@ -40,7 +41,7 @@ ASSUMPTIONS = [
     "LockableFiles.get_transaction().writeable() is true exactly in write mode (WriteTransaction vs ReadOnlyTransaction)",
     "lock.cant_unlock_not_held() is a refusal (raises LockNotHeld or warns) and does not touch the lock",
     "debug.debug_flag_enabled(...) is false (relock diagnostics are not part of the property)",
-    "PackRepository has no fallback repositories and no live write group in the explored states (write groups are C06)",
+    "PackRepository is modelled with one fallback repository (its lock_read/unlock calls are events) and no live write group (write groups are C06)",
 ]
 
 DEPTH = 4
@@ -72,13 +73,14 @@ WRAPPERS = [
         "name": "PackRepository",
         "rel": "breezy/bzr/pack_repo.py",
         "cls": "PackRepository",
-        "fields": {"_write_lock_count": 0, "_write_group": None, "_transaction": None, "_prev_lock": None, "_fallback_repositories": ()},
+        "fields": {"_write_lock_count": 0, "_write_group": None, "_transaction": None, "_prev_lock": None},
         "tracked": ("_write_lock_count",),
         "phys": None,  # physical lock reached through control_files (LockableFiles)
         "phys_in_write": False,
         "owners": {"__init__", "lock_read", "lock_write", "unlock", "break_lock"},
         "inline": {"is_locked", "is_write_locked"},
         "sub": {"control_files": "LockableFiles"},
+        "fallback": True,  # one fallback repository whose lock_read/unlock calls are recorded as events
     },
 ]
 BY_NAME = {w["name"]: w for w in WRAPPERS}
@@ -106,6 +108,8 @@ def make_obj(repo, wname):
         o.set(w["phys"], Obj("phys"))
     for attr, sub in w.get("sub", {}).items():
         o.set(attr, make_obj(repo, sub))
+    if w.get("fallback"):
+        o.set("_fallback_repositories", (Obj("fallback"),))
     return o
 
 
@@ -165,6 +169,15 @@ def build_interp(repo, world):
                 return None
             world.neutral.add("phys." + meth)
             return Opaque("phys." + meth)
+        if isinstance(recv, Obj) and recv._name == "fallback":
+            if meth == "lock_read":
+                world.events.append("fb+")
+                return Opaque("lock")
+            if meth == "unlock":
+                world.events.append("fb-")
+                return None
+            world.neutral.add("fallback." + meth)
+            return Opaque("fallback." + meth)
         if isinstance(recv, Obj) and recv.has("__wrapper__"):
             w = BY_NAME[recv.get("__wrapper__")]
             if meth in ("lock_read", "lock_write", "unlock") or meth in w["inline"]:
@@ -289,6 +302,13 @@ def explore(ctx, repo, w):
                         desc = f"{wname}.{method}({'token' if with_token else ''}) at depth={depth} mode={mode} phys={phys}" + (" [acquire fails]" if acquire_fails else "") + (" [token rejected]" if token_fails else "") + f" -> {outcome}, events={events}, fields {dict(before)} -> {dict(after)}"
                         ctx.sample(desc) if transitions in (1, 5, 9, 14, 22, 31) else None
                         ng = None
+                        if w.get("fallback"):
+                            fbp, fbm = events.count("fb+"), events.count("fb-")
+                            failing = acquire_fails or token_fails
+                            refused = (method == "lock_write" and depth > 0 and mode == "r") or (method == "unlock" and depth == 0)
+                            want_p = 1 if (method != "unlock" and depth == 0 and not failing) else 0
+                            want_m = 1 if (method == "unlock" and depth == 1) else 0
+                            ctx.check("K8-fallback-once", where, (fbp, fbm) == (want_p, want_m), "fallback repositories are read-locked exactly with the first lock and unlocked exactly with the last unlock" + (" (nothing on a refusal)" if refused or failing else "") + ": " + desc, construct=desc)
                         if acquire_fails or token_fails:
                             ctx.check("K8-fail-unchanged", where, outcome.startswith("raise") and after == before and acq == 0 and rel == 0, "failing acquire/token check propagates and leaves bookkeeping unchanged: " + desc, construct=desc)
                             continue
